@@ -50,6 +50,16 @@ fn lint_by_ref_arg(
             match &arg_pos.element {
                 Expression::ArrayElement(name, args, expression_type) => {
                     if args.is_empty() {
+                        // the array is passed as it is, its elements cannot be converted:
+                        // an array of STRING * n is not an array of strings
+                        if matches!(expression_type, ExpressionType::FixedLengthString(_))
+                            && matches!(
+                                boxed_element_type.as_ref(),
+                                ResolvedParamType::BuiltIn(_, _)
+                            )
+                        {
+                            return Err(LintError::ArgumentTypeMismatch.at(arg_pos));
+                        }
                         let dummy_expr =
                             Expression::Variable(name.clone(), expression_type.clone()).at(arg_pos);
                         lint_by_ref_arg(&dummy_expr, boxed_element_type.as_ref())
